@@ -119,10 +119,16 @@ def build_term(k, t, o):
         return fn.Count(F(t, "a")).distinct()
     if k == 31:
         return F(t, "a").notin([1, 2])
+    if k == 32:  # the only reference to the table sits inside a subquery operand of an AND group
+        return (F(o, "c") > 1) & F(o, "d").isin(QS[0].from_(t).select(F(t, "a")))
+    if k == 33:  # comparison with a subquery
+        return F(o, "c") == QS[0].from_(t).select(F(t, "a")).where(F(t, "b") == 1)
+    if k == 34:  # function over a subquery and a nested CASE
+        return fn.Coalesce(QS[0].from_(t).select(fn.Max(F(t, "a"))), Case().when(F(o, "c") == 1, F(t, "b")).else_(0))
     raise AssertionError(k)
 
 
-NTERM = 32
+NTERM = 35
 
 
 def judge(name, X, Y, old, new, ctx, args):
@@ -154,7 +160,7 @@ def judge(name, X, Y, old, new, ctx, args):
     bounds={"quick": {"L": 2}, "thorough": {"L": 4}},
     timeout={"quick": 120, "thorough": 900},
     witness=[dict(k=2, p=0, s="n"), dict(k=7, p=1, s="t"), dict(k=14, p=4, s="x")],
-    doc="32 term kinds (every operand slot that can hold a field) x 5 table-pair shapes x any new table name (len 1..L)",
+    doc="35 term kinds (every operand slot that can hold a field) x 5 table-pair shapes x any new table name (len 1..L)",
 )
 def c16_terms(k: int, p: int, s: str) -> int:
     """
@@ -165,6 +171,8 @@ def c16_terms(k: int, p: int, s: str) -> int:
     o = Table("o")
     if k == 24 and new is None:
         return SKIP  # a star without a table is a different term
+    if k in (32, 33, 34) and new is None:
+        return SKIP  # a subquery cannot select FROM no table
     X = build_term(k, old, o)
     Y = build_term(k, new, o)
     return judge("c16_terms", X, Y, old, new, NS_CTX, dict(k=k, p=p, s=s))
